@@ -62,6 +62,7 @@ type contract struct {
 	Inline    bool
 	Pure      bool     // modifies nothing (checked against the mod-set analysis for module functions)
 	Modifies  []string // heap keys; nil = computed
+	Emits     []*clause // ghost events: NAME = EXPR (definitional: assumed at call sites, never an obligation)
 	NoReturn  bool
 	UnreachableLayer string
 	Unreachable bool // the precondition (with the receiver's type) is unsatisfiable: never called under its contract
@@ -74,13 +75,14 @@ type contractDB struct {
 	Lemmas    []*lemmaDef
 	Contracts map[string]*contract
 	Markers   []string // assume/axiom/trusted style markers found
+	Ghosts    map[string]string // ghost state variable -> type
 	Files     []string
 }
 
-var clauseKw = regexp.MustCompile(`^(spec|macro|lemma|contract|external|requires|ensures|decreases|loop|safety|props|inline|pure|modifies|noreturn|fuel|unreachable)\b`)
+var clauseKw = regexp.MustCompile(`^(ghost|spec|macro|lemma|contract|external|requires|ensures|emits|decreases|loop|safety|props|inline|pure|modifies|noreturn|fuel|unreachable)\b`)
 
 func newContractDB() *contractDB {
-	return &contractDB{Specs: map[string]*specDef{}, Contracts: map[string]*contract{}}
+	return &contractDB{Specs: map[string]*specDef{}, Contracts: map[string]*contract{}, Ghosts: map[string]string{}}
 }
 
 // loadContractFile parses one file. pkgPath is the Go package the file belongs to ("" for external files,
@@ -144,6 +146,13 @@ func (db *contractDB) loadContractFile(path, pkgPath string) error {
 			return fmt.Errorf("%s:%d: %s", path, rc.line, fmt.Sprintf(f, a...))
 		}
 		switch kw {
+		case "ghost":
+			f := strings.Fields(rest)
+			if len(f) != 2 {
+				return fail("ghost NAME TYPE")
+			}
+			db.Ghosts[f[0]] = f[1]
+			cur = nil
 		case "spec", "macro":
 			sd, err := parseSpecDecl(rest)
 			if err != nil {
@@ -218,6 +227,22 @@ func (db *contractDB) loadContractFile(path, pkgPath string) error {
 				} else {
 					cl.Kind, cl.Label, cl.Src = "ensures", strings.TrimSpace(rest[:k]), strings.TrimSpace(rest[k+1:])
 				}
+			case "emits":
+				k := strings.Index(rest, "=")
+				if k < 0 {
+					return fail("emits NAME = expr")
+				}
+				cl.Kind, cl.Label, cl.Src = "emits", strings.TrimSpace(rest[:k]), strings.TrimSpace(rest[k+1:])
+				if _, ok := db.Ghosts[cl.Label]; !ok {
+					return fail("emits: unknown ghost variable %s", cl.Label)
+				}
+				e, err := parseCExpr(cl.Src)
+				if err != nil {
+					return fail("%v", err)
+				}
+				cl.Expr = e
+				cur.Emits = append(cur.Emits, cl)
+				continue
 			case "decreases":
 				cl.Kind, cl.Src = "decreases", rest
 			case "loop":
